@@ -223,7 +223,7 @@ theorem hr2c_core {g : Cfg} {K2 : RCtx} (hK : K2.Aborted) (hfin : K2.final = tru
 /-- the handler has ended after its failed read of the Data stream: `close` -/
 theorem done_closeB {g : Cfg} (hK0 : g.K0.Aborted) (hrole : g.p.role = 3) {Ow C : Bytes} {s0 : ExitStatus}
     {pr : Bool} (hmode : g.st = if pr then ExitStatus.abort else s0) {c : Conn} {r : AReq} {H : HState}
-    (hph : c.phase = .handler r H) (hd : HDoneB g Ow C s0 pr (handlerFuel c.env r) r H c.env)
+    (hph : c.phase = .handler r H) (hd : HDoneB g Ow C s0 pr ((handlerFuel c.env r + scriptOf c)) r H c.env)
     (hb : Ben c.env.tr) (hstop : c.stop = false) (hev : Ev1 g c.env.tr)
     (hsc : c.scripts = g.more) :
     GRes3 (T3 g Ow C) (A3 g Ow C) (F3 g Ow C) 3 c := by
@@ -485,12 +485,12 @@ theorem hr2c_poll {g : Cfg} {db : List Rec} {a : Rec} {s0 : ExitStatus} {pr : Bo
   have hcapr : r.sp.cap = g.cap := hi0.capK
   have hcapK : (g.K8c db).cap = g.cap := rfl
   have hfuel : 2 * (((g.K8c db).C.length - (accOf sub).length) / 64) + 2 * c.env.tr.input.length + 4 ≤
-      handlerFuel c.env r := by
+      (handlerFuel c.env r + scriptOf c) := by
     unfold handlerFuel
     rw [hcapr]
     omega
   rcases hr2c_core ok.k8 (k8c_final g db) ⟨rfl, rfl, rfl, rfl⟩ rfl (P2 := g.Ow1) (Ow := g.Ow3 db) rfl s0 pr
-      (handlerFuel c.env r) r sub c.env dO hfuel hb hs hw0 with
+      ((handlerFuel c.env r + scriptOf c)) r sub c.env dO hfuel hb hs hw0 with
     ⟨r', acc', e', dO', d1, d3, d5, d6, d8, d9, d10⟩ | hd
   · have hstep := C07.handler_step c r _ hph
     rw [d1] at hstep
@@ -512,11 +512,11 @@ theorem hr1c_poll {g : Cfg} {db : List Rec} {a : Rec} {s0 : ExitStatus} {pr : Bo
   have hcapr : r.sp.cap = g.cap := hi0.capK
   have hcapK : g.K.cap = g.cap := rfl
   have hfuel : 2 * ((g.K.C.length - (accOf sub).length) / 64) + 2 * ((g.cap + c.env.tr.input.length) / 64) +
-      2 * c.env.tr.input.length + 9 ≤ handlerFuel c.env r := by
+      2 * c.env.tr.input.length + 9 ≤ (handlerFuel c.env r + scriptOf c) := by
     unfold handlerFuel
     rw [hcapr]
     omega
-  rcases hr1c_core ok (handlerFuel c.env r) r sub c.env dO hfuel hb hs hnw with
+  rcases hr1c_core ok ((handlerFuel c.env r + scriptOf c)) r sub c.env dO hfuel hb hs hnw with
     ⟨r', acc', e', dO', d1, d3, d5, d6, d8, d9, d10⟩ | ⟨r', acc', e', dO', d1, d3, d5, d6, d8, d9, d10⟩ | hd
   · have hstep := C07.handler_step c r _ hph
     rw [d1] at hstep
